@@ -38,7 +38,16 @@ Inductive stmt :=
 | SPut (q : nat) (z : Z)
 | SGet (q : nat)
 | SCloseQ (q : nat)
-| SStatus (tname : nat).
+| SStatus (tname : nat)
+| SForQueue (q : nat) (n : nat) (body : list stmt)
+| SInterval (p : xtime) (n : nat) (body : list stmt)
+| SDelayIter (p : xtime) (n : nat) (body : list stmt)
+| SChanPut (c : nat) (z : Z)
+| SChanGet (c : nat)
+| SChanClose (c : nat)
+| SForChan (c : nat) (n : nat) (body : list stmt)
+| SCollect (scname : nat) (acts : list (nat * list stmt))
+| SFirst (scname : nat) (k : option nat) (n : nat) (acts : list (nat * list stmt)) (body : list stmt).
 
 Record scenario := {
   sc_start : xtime;
@@ -47,7 +56,8 @@ Record scenario := {
   sc_nflags : nat;
   sc_tracked : list Z;
   sc_nlocks : nat;
-  sc_nqueues : nat
+  sc_nqueues : nat;
+  sc_nchans : nat
 }.
 
 (** ** building notification objects *)
@@ -164,6 +174,14 @@ Definition task_status (o : objs) (t : tid) : Z :=
   | None => match nth (t_runner x) (astat o) AsDead with AsNew => 1 | _ => 2 end
   end%Z.
 
+Definition zof (v : val) : Z := match v with VZ z => z | _ => (-1)%Z end.
+
+Fixpoint await_vals (ts : list tid) (acc : list Z) (k : list Z -> prog) : prog :=
+  match ts with
+  | [] => k acc
+  | t :: r => v <- task_await t ;; await_vals r (acc ++ [zof v]) k
+  end.
+
 (** ** compilation *)
 Fixpoint compile (s : stmt) : prog :=
   let fix compile_list (ss : list stmt) : prog :=
@@ -220,6 +238,38 @@ Fixpoint compile (s : stmt) : prog :=
                        | Some t => [6; Z.of_nat tname; task_status o t]
                        | None => [7; Z.of_nat tname]
                        end%Z)
+  | SForQueue q n body =>
+      ForN (queue_iter q) n (fun v => emit (fun _ _ => [4; Z.of_nat q; zof v]%Z) ;;; compile_list body)
+  | SInterval p n body =>
+      ForN (interval_gen p) n (fun v => emit (fun _ _ => [20; match v with VX t => xt_code t | _ => -1 end]%Z) ;;; compile_list body)
+  | SDelayIter p n body =>
+      ForN (delay_gen p) n (fun v => emit (fun _ _ => [21; match v with VX t => xt_code t | _ => -1 end]%Z) ;;; compile_list body)
+  | SChanPut c z => chan_put c z
+  | SChanGet c => v <- chan_get c ;; emit (fun _ _ => [4; 1000 + Z.of_nat c; zof v]%Z)
+  | SChanClose c => chan_close c
+  | SForChan c n body =>
+      ForN (chan_iter c) n (fun v => emit (fun _ _ => [4; 1000 + Z.of_nat c; zof v]%Z) ;;; compile_list body)
+  | SCollect scname acts =>
+      let fix comp_acts (l : list (nat * list stmt)) : list (nat * prog) :=
+        match l with
+        | [] => []
+        | (tn, b) :: r => (tn, compile_list b ;;; Ret (VZ (1000 + Z.of_nat tn))) :: comp_acts r
+        end in
+      t0 <- Do (fun o _ => okv o (VN (length (tasks o)))) ;;
+      scope_block scname None
+        (Dyn (fun o _ => match assoc_nat scname (snames o) with
+                         | Some sc => spawn_all sc false (comp_acts acts) (fun p => p)
+                         | None => Ret VU
+                         end)) ;;;
+      await_vals (seq (vnat t0) (length acts)) [] (fun vs => emit (fun _ _ => (9 :: vs)%Z))
+  | SFirst scname k n acts body =>
+      let fix comp_acts (l : list (nat * list stmt)) : list (nat * prog) :=
+        match l with
+        | [] => []
+        | (tn, b) :: r => (tn, compile_list b ;;; Ret (VZ (1000 + Z.of_nat tn))) :: comp_acts r
+        end in
+      ForN (first_gen scname k (comp_acts acts)) n
+           (fun v => emit (fun _ _ => [8; zof v]%Z) ;;; compile_list body)
   end.
 
 Fixpoint compile_list (ss : list stmt) : prog :=
@@ -234,16 +284,6 @@ Definition empty_objs (start : xtime) (nroots : nat) : objs :=
      tracked := []; tasks := []; scopes := []; locks := []; queues := []; chans := []; ress := [];
      tnames := []; snames := []; trace := []; serial := 0 |}.
 
-Definition alloc_lock (o : objs) : objs :=
-  let '(o1, n) := alloc_notif o NPlain in
-  o1 <| locks := locks o1 ++ [{| l_owner := None; l_depth := 0%Z; l_notif := n |}] |>.
-
-Definition alloc_queue (o : objs) : objs :=
-  let '(o1, n) := alloc_notif o NPlain in
-  let m := length (locks o1) in
-  let o2 := alloc_lock o1 in
-  o2 <| queues := queues o2 ++ [{| q_buf := []; q_notif := n; q_mutex := m; q_closed := false |}] |>.
-
 Fixpoint iter {A} (n : nat) (f : A -> A) (x : A) : A :=
   match n with O => x | S n' => iter n' f (f x) end.
 
@@ -252,7 +292,8 @@ Definition init_objs (s : scenario) (nroots : nat) : objs :=
   let o1 := iter (sc_nflags s) (fun o => fst (alloc_flag o)) o0 in
   let o2 := o1 <| tracked := map (fun z => {| tval := z; tlisteners := [] |}) (sc_tracked s) |> in
   let o3 := iter (sc_nlocks s) alloc_lock o2 in
-  iter (sc_nqueues s) alloc_queue o3.
+  let o4 := iter (sc_nqueues s) alloc_queue o3 in
+  iter (sc_nchans s) alloc_chan o4.
 
 (** [usim.run(activities..., start=, till=)] *)
 Fixpoint do_roots (sc : nat) (i : nat) (roots : list (list stmt)) : prog :=
@@ -270,11 +311,11 @@ Definition init_state (s : scenario) : mstate :=
   | None =>
       {| ob := init_objs s (length (sc_roots s));
          acts := map (fun r => ANew (compile_list r)) (sc_roots s);
-         result := RGoing; klog := [] |}
+         result := RGoing; klog := []; gens := [] |}
   | Some t =>
       {| ob := init_objs s 1;
          acts := [ANew (n <- eval_wt (WMoment t) ;; scope_block 999 (Some (vnat n)) (do_roots 999 0 (sc_roots s)))];
-         result := RGoing; klog := [] |}
+         result := RGoing; klog := []; gens := [] |}
   end.
 
 Definition final_event (m : mstate) : list Z :=
